@@ -5,7 +5,7 @@
     harness fills by calling the REAL marshaler directly (Name on every value and on every
     handler's zero value, Marshal on every value sent, Unmarshal of every payload into every
     handler type of the scenario) — independently of the bus / processor run that is compared. *)
-From WM Require Import Base.Prelude Message.Model Handler.RouterHandle CQRS.Model CQRS.Reg CQRS.Calls CQRS.Own CQRS.Names.
+From WM Require Import Base.Prelude Message.Model Handler.RouterHandle CQRS.Model CQRS.Reg CQRS.Calls CQRS.Own CQRS.Names CQRS.Accept.
 
 Definition val := (N * N)%type.        (* Go type, canonical content *)
 Definition val_eqb (a b : val) : bool := N.eqb (fst a) (fst b) && N.eqb (snd a) (snd b).
@@ -203,8 +203,7 @@ Definition mc_violates (c : c15_case) (mt : option (list (mevent val))) : bool :
   | None => false
   | Some tr =>
       let t := k_tab c in
-      negb (mcalls_ok (name_from (k_msg c)) tr
-            && list_eqb N.eqb (mhandles tr) (map fst (calls (k_tr c))))
+      negb (mc_monitor (k_msg c) (k_tr c) tr)
   end.
 Fixpoint zip_with {A B} (f : A -> B -> bool) (a : list A) (b : list B) : list bool :=
   match a, b with x :: a', y :: b' => f x y :: zip_with f a' b' | _, _ => [] end.
@@ -229,10 +228,7 @@ Definition bmc_violations cs mts : list nat := positions (zip_with bmc_violates 
     deliveries of messages that were sent through a real bus and consumed late: the value sent *)
 Definition own_call (c : bus_case) : @hcall val N :=
   let t := b_tab c in
-  let '(tr, _) := bus_send (t_name t) (t_enc t) (bus_cfg_of c) (b_uuid c) 1%N (bus_ctx c) (b_val c)
-                           (b_modify c) (b_pub c) in
-  HC (b_val c) (hook_edits (b_hook c) ++ hook_edits (b_modify c))
-     (match bus_publishes tr with [] => false | _ => true end).
+  bus_own_call (t_name t) (t_enc t) (bus_cfg_of c) (b_uuid c) 1%N (bus_ctx c) (b_val c) (b_modify c) (b_pub c).
 Definition own_violates (c : bus_case) (reread : option N) : bool :=
   negb (own_monitor (t_enc (b_tab c)) N.eqb [own_call c] [reread]).
 Definition own_violations cs rs : list nat := positions (zip_with own_violates cs rs).
@@ -244,8 +240,7 @@ Definition sent_violates (c : c15_case) (sent : option val) : bool :=
   | None => false
   | Some v =>
       let t := k_tab c in
-      negb (option_eqb N.eqb (t_enc t v) (Some (w_payload (k_msg c)))
-            && N.eqb (name_from (k_msg c)) (t_name t v))
+      negb (sent_monitor (t_name t) (t_enc t) N.eqb (k_msg c) v)
   end.
 Definition sent_violations cs ss : list nat := positions (zip_with sent_violates cs ss).
 
